@@ -569,6 +569,7 @@ def run(ck: common.Check):
     _ph = {"prove": round(time.time() - _t[0], 1)}
     _t[0] = time.time()
     mc.init_env()
+    lim = mc.CorrLimiter(ck)
     ck.rule = ("cases = corpus + every catalogue value (valid / invalid / context-dependent) assigned to its field on 12 "
                "base objects and given at construction through kwargs, model_validate, model_validate_json and zarr v2/v3 "
                "attributes + a helper catalogue on every base + seeded random histories of <= 8 operations (mostly valid, "
@@ -611,11 +612,11 @@ def run(ck: common.Check):
         for (idx, o), sv in zip(last, svals):
             if "err" in sv or not sv.get("decoded"):
                 if o["viol"] != "malformed-dump":
-                    ck.corr_broken("C07:lean-spec-on-observed-dump(decode)", cases[idx], o["viol"], sv)
+                    lim.corr_broken("C07:lean-spec-on-observed-dump(decode)", cases[idx], o["viol"], sv)
                 continue
             n_s += 1
             if sv["viol"] != o["viol"] or mc.canon(sv["redump"]) != o["dump"]:
-                ck.corr_broken("C07:lean-spec-on-observed-dump", cases[idx], {"viol": o["viol"]}, {"viol": sv["viol"]})
+                lim.corr_broken("C07:lean-spec-on-observed-dump", cases[idx], {"viol": o["viol"]}, {"viol": sv["viol"]})
         ck.extra["lean_spec_evaluations_on_observed_dumps"] = n_s
     nsteps = 0
     shrunk: set = set()
@@ -629,7 +630,7 @@ def run(ck: common.Check):
                 fl = shrink(fl)
             ck.fail(fl["key"], fl["what"], fl["case"], fl["observed"], fl["expected"])
         if model is not None and not c.get("gray"):
-            compare(ck, c, im, model[idx])
+            compare(lim, c, im, model[idx])
     ck.extra["steps_observed"] = nsteps
     ck.extra["env"] = {"default_version": mc.default_version(), "default_version_matches_pattern": mc.pattern_ok(mc.default_version()),
                        "offset_length_checked": mc._OFFCHK[0], "version_pattern": mc.version_pattern()}
